@@ -322,12 +322,26 @@ func (g *gen) do(from *world.Key, fn string, input interface{}, value uint64, op
 	w := g.w
 	pre := g.balances()
 	extra := rec.M{"src": "storage"}
-	if op.fmTokens > 0 {
+	if fn == "free_allocation_request" {
+		// cross-family fields for C04 (Ledger): under which marker the sc owner may be debited by this transaction
 		ft := op.fmTokens
 		if ft > uint64(capInt) {
 			ft = uint64(capInt)
 		}
+		fnonce := op.fmNonce
+		if fnonce > capInt || fnonce < -capInt {
+			fnonce = capInt
+		}
+		within := false
+		for _, a := range g.prev.Assigners {
+			if a.ID == op.fmAssigner && a.Present && op.fmTokens <= a.IndLimit {
+				within = true
+			}
+		}
 		extra["free_tokens"] = ft
+		extra["free_assigner"] = op.fmAssigner
+		extra["free_nonce"] = fnonce
+		extra["free_marker_ok"] = op.fmSig && op.fmRecipient == from.ID && within
 	}
 	res := w.DoRec(g.rc, world.TxnSpec{From: from, To: world.Contracts["storagesc"], Type: transaction.TxnTypeSmartContract, Fn: fn, Input: input, Value: value}, extra)
 	if res.Class == "ok" && (fn == "new_allocation_request" || fn == "free_allocation_request") {
